@@ -3,6 +3,6 @@ From GW Require Import Base CalMatch.
 Extraction Language OCaml.
 Extraction "model_c06.ml"
   match_top filter_objs rfc4791_comp
-  match_agrees match_spec_ok match_kf
-  filter_agrees filter_spec_ok filter_kf
-  times_ok between_ok kf_recurring_overlap no_recurring.
+  match_agrees match_spec_ok
+  filter_agrees filter_spec_ok
+  times_ok rset_ok no_recurring.
